@@ -1373,8 +1373,40 @@ class Assembler:
         with open(path) as f:
             tl = f.read().split('\n')
         impl_stack = []
+        skipping_default = False
         for raw in tl:
             m = re.match(r'\s*//@(\w+)\s*(.*)$', raw)
+            if skipping_default:
+                if m and m.group(1) == 'end_default':
+                    skipping_default = False
+                continue
+            if m and m.group(1) == 'end_default':
+                continue
+            if m and m.group(1) == 'default_if_absent':
+                # //@default_if_absent <key>: the lines up to //@end_default transcribe a PROVIDED trait method the crate does not override.
+                # If the crate now defines it, the real function is extracted instead (same contract key) and the model is skipped.
+                dkey = m.group(2).strip()
+                dc = self.contracts.get(dkey)
+                if dc is None:
+                    raise ExtractError('no contract for %s' % dkey)
+                try:
+                    find_fn(dc.src, dc.ctx, dc.name)
+                    exists = True
+                except ExtractError:
+                    exists = False
+                if exists:
+                    skipping_default = True
+                    mode = self.demote.get(dkey)
+                    if mode:
+                        self.demoted.append({'key': dkey, 'mode': mode, 'tags': sorted(set(dc.safety_tags)), 'name': dc.name, 'clauses': [dkey + '.safety']})
+                        self.emit_fn(dkey, True, bare=(mode == 'bare'))
+                    else:
+                        try:
+                            self.emit_fn(dkey, False)
+                        except ExtractError as e:
+                            e.fn_key = dkey
+                            raise
+                continue
             if not m:
                 ln = self.emit(raw)
                 pl = getattr(self, 'pending_lemma', None)
